@@ -234,7 +234,8 @@ func propC09(r *Run) {
 			r.Count("probe:store-directory-replaced-under-instance")
 		}
 		ackedByFirst := false
-		if !sc.otherDev && (op.Kind == "update" || op.Kind == "add" || op.Kind == "set-admin") && r.Choose("retry-after-failed-attempt", 6) == 0 {
+		faultInRemove := false
+		if !sc.otherDev && (op.Kind == "update" || op.Kind == "add" || op.Kind == "set-admin" || op.Kind == "remove") && r.Choose("retry-after-failed-attempt", 6) == 0 {
 			// the acknowledged call is the operator's second attempt: the first one met an I/O error
 			// somewhere and reported failure (whatever it left behind). What the retry acknowledges
 			// must be durable all the same - it cannot lean on work the failed attempt did not finish.
@@ -275,6 +276,7 @@ func propC09(r *Run) {
 				// the fault did not make the call fail (or was not reached): then this was the acknowledged call
 				r.Count("probe:first-attempt-succeeded")
 				ackedByFirst = true
+				faultInRemove = op.Kind == "remove" && done
 			}
 			w.logPos = len(f.Log)
 		}
@@ -327,7 +329,11 @@ func propC09(r *Run) {
 			case "remove":
 				_, okA := img.Get(w.base() + "/" + op.User + ".admin")
 				_, okU := img.Get(w.base() + "/" + op.User + ".user")
-				if okA || okU {
+				if (okA || okU) && faultInRemove {
+					// remove has no way to report an error: an I/O error on the unlink or on the flush of the
+					// directory is swallowed and the removal acknowledged all the same
+					r.Fail("durability/remove/io-error-not-reported", "%s (one file-system operation of the call had failed with an I/O error, which remove cannot report): the removed user's file is back", what)
+				} else if okA || okU {
 					r.Fail("durability/remove/unlink-not-durable", "%s: the removed user's file is back", what)
 				}
 			}
